@@ -75,8 +75,13 @@ def gen_history(rng, n, ndirs, length):
             wrappers.append({'dir': d, 'holders': 1, 'alive': True, 'clear': clear})
         elif k == 'get':
             ops.append({'k': 'get', 'w': rng.choice(alive), 'i': rng.randrange(n)})
-            if rng.random() < 0.35:
+            u = rng.random()
+            if u < 0.3:
                 ops[-1]['by_key'] = True          # the same example looked up by its key
+            elif u < 0.45:
+                ops[-1]['how'] = 'np'             # ... by a numpy integer
+            elif u < 0.6:
+                ops[-1]['how'] = 'slice'          # ... through a one-element slice
         elif k == 'next':
             live = [i for i, (w, pos) in iters.items() if wrappers[w]['alive'] and pos < n]
             if live and rng.random() < 0.75:
